@@ -25,9 +25,12 @@ def gen_groupsum():
                 guard = True
                 continue
             _fail("unknown assertion " + s)
+        # the accumulator of the count: float32 for 16-bit inputs, the input's own dtype otherwise (on the rationals: no effect)
+        if s == "acc = torch.float32 if x.dtype in (torch.float16, torch.bfloat16) else None":
+            continue
         if isinstance(node, ast.Return):
             e = ast.unparse(node.value)
-            if e == "(x.reshape(*x.shape[:-1], self.k, x.shape[-1] // self.k).sum(-1) + self.beta) / self.tau":
+            if e == "(x.reshape(*x.shape[:-1], self.k, x.shape[-1] // self.k).sum(-1, dtype=acc) + self.beta) / self.tau":
                 form = "SumPlusBetaOverTau"
                 continue
             _fail("unknown return expression " + e)
